@@ -6,7 +6,7 @@ root=$(cd "$(dirname "$0")/.." && pwd)
 cd $root
 ids=${*:-$(ls seeded | grep '^C')}
 for id in $ids; do
-  prop=${id%b}
+  prop=$(echo $id | cut -c1-3)
   out=$($root/tools/try_seed_wt.sh $root/seeded/$id/patch.diff $prop 2>&1 | head -1)
   case "$out" in *"exit=1 violations="[1-9]*) echo "caught  $id  $out" | cut -c1-160;; *) echo "MISSED  $id  $out" | cut -c1-200;; esac
 done
